@@ -275,7 +275,7 @@ def build_program(rng, n, edges, renamed=(), const_alias=False):
 
 DEF_RX = {
     "typescript": r"^export (?:interface|type|enum) (\w+)",
-    "python": r"^(?:class (\w+)\(|(\w+) = )",
+    "python": r"^(?:class (\w+)\(|(\w+) = (?!TypeVar\())",      # a TypeVar declaration is a generic parameter, not a definition
     "kotlin": r"^(?:data class|sealed class|enum class|typealias|object|value class) (\w+)",
     "swift": r"^public (?:struct|enum|indirect enum|typealias) (\w+)",
     "go": r"^type (\w+)[ \[]",
